@@ -98,6 +98,15 @@ def run(ck):
         b = bytearray(vf); b[ok_off + off + 95] ^= 1; addm("verifier", [(f"opening key {which} corrupted", bytes(b))])
         for nm, enc in mutate.g2_specials(rng, valid=bytes(vf[ok_off + off:ok_off + off + 96])):
             b = bytearray(vf); b[ok_off + off:ok_off + off + 96] = enc; addm("verifier", [(f"opening key {which} := {nm}", bytes(b))])
+    # size fields whose next power of two lies beyond 2^32 (domains the field has no root of unity for)
+    for k_ in (30, 31, 32, 33, 34, 40, 48, 60, 62, 63):
+        for dlt in (0, 1):
+            v_ = (1 << k_) + dlt
+            b = bytearray(vf); b[48 + l2:48 + l2 + 8] = (v_ % (1 << 64)).to_bytes(8, "little"); addm("verifier", [(f"verifier key n := 2^{k_}+{dlt}", bytes(b))])
+            b = bytearray(vf); b[32:40] = (v_ % (1 << 64)).to_bytes(8, "big"); b[40:48] = (v_ % (1 << 64)).to_bytes(8, "big"); addm("verifier", [(f"verifier header size and constraints := 2^{k_}+{dlt}", bytes(b))])
+            b = bytearray(pv); b[pk_off:pk_off + 8] = (v_ % (1 << 64)).to_bytes(8, "little"); addm("prover", [(f"prover key n := 2^{k_}+{dlt}", bytes(b[:pk_off + 4096]) if dlt else bytes(b))])
+            b = bytearray(pv); b[32:40] = (v_ % (1 << 64)).to_bytes(8, "big"); b[40:48] = (v_ % (1 << 64)).to_bytes(8, "big"); b[pk_off:pk_off + 8] = (v_ % (1 << 64)).to_bytes(8, "little")
+            addm("prover", [(f"prover header size, constraints and key n := 2^{k_}+{dlt}", bytes(b))])
     pi_off = ok_off + ok2
     for v in mutate.EXTREMES:
         b = bytearray(vf); b[pi_off:pi_off + 8] = mutate.be64(v); addm("verifier", [(f"public input index 0 := {v:#x}", bytes(b))])
